@@ -4,7 +4,7 @@
    statements below are about what they emit for arbitrary documents, not only round-trippable ones. *)
 From Coq Require Import Permutation.
 From Verif Require Import Model.Base Model.Node Model.Graph Model.Spdx Model.Cdx Gen.Tables
-  Proofs.GraphFacts Proofs.SpdxFacts Proofs.CdxFacts.
+  Gen.Schema Proofs.GraphFacts Proofs.SpdxFacts Proofs.CdxFacts Proofs.SpecTables.
 Open Scope list_scope.
 
 (* ---- SPDX 2.3 ---- *)
@@ -26,6 +26,29 @@ Theorem C03_spdx_every_relationship : forall fmt_time self d md nl s a b t,
    (exists ty, InE (nl_edges nl) a ty b /\ t = edge_to_spdx2 ty) \/ (a = DOCUMENT /\ t = "DESCRIBES" /\ In b (nl_root_elements nl))).
 Proof. exact spdx_relationships. Qed.
 Print Assumptions C03_spdx_every_relationship.
+
+(* ... and the type names are those of the SPDX 2.3 specification (written out in Proofs/SpecTables.v by the
+   names of the protobuf enum values): a pair of names swapped consistently in the writer's and the reader's
+   table keeps every round trip intact and is excluded here *)
+Theorem C03_relationship_names_are_spdx23 : forall t s,
+  In (t, s) edge_to_spdx2_tab <-> In (t, s) spdx23_relationship_names.
+Proof. exact relationship_names_are_spdx23. Qed.
+Print Assumptions C03_relationship_names_are_spdx23.
+
+(* the hash algorithms both formats support are written under the formats' own names *)
+Theorem C03_hash_names_are_the_formats : 
+  (forall a s, In (a, s) hash_to_spdx_tab -> In (a, s) spdx23_checksum_names) /\
+  (forall a s, In (a, s) spdx23_checksum_names -> In (a, s) hash_to_spdx_tab \/ (a, s) = (HashAlgorithm_MD2, "MD2")) /\
+  (forall a s, In (a, s) hash_to_cdx_tab <-> In (a, s) cdx_hash_alg_names).
+Proof. split; [exact (proj1 checksum_names_are_spdx23) | split; [exact (proj2 checksum_names_are_spdx23) | exact hash_names_are_cyclonedx]]. Qed.
+Print Assumptions C03_hash_names_are_the_formats.
+
+(* package identifiers are written to SPDX under the category and type of Annex F, and read back from them *)
+Theorem C03_identifier_refs_are_spdx23 : forall k c t,
+  In (k, (c, t)) spdx23_identifier_refs ->
+  In (k, c) ident_to_spdx2_category_tab /\ In (k, t) ident_to_spdx2_type_tab /\ In (t, k) spdx_ident_type_tab.
+Proof. exact identifier_refs_are_spdx23. Qed.
+Print Assumptions C03_identifier_refs_are_spdx23.
 
 (* no relationship refers to an element that was not emitted (closed documents) *)
 Theorem C03_spdx_no_dangling_reference : forall fmt_time self d md nl s r,
